@@ -16,5 +16,9 @@ def handle (fields : List String) : Option String :=
       let c := emitFor dl (rangeOfRanges (Drv.Take.parseRanges rs)) (ob == "1") (dist == "1")
       some s!"limit={Drv.Take.showOpt c.limit} offset={Drv.Take.showOpt c.offset} rows={c.offsetRows && c.offset.isSome} fetch={Drv.Take.showOpt c.fetch} fill={showFill c.orderFill}"
     | none => some "bad-dialect"
+  | ["setquant", d, dist] =>
+    match Model.dialectFromStr d.toList with
+    | some dl => some (match setQuantifierFor dl (dist == "1") with | .distinct => "DISTINCT" | .bare => "-" | .all => "ALL")
+    | none => some "bad-dialect"
   | _ => none
 end Drv.Clause
